@@ -418,8 +418,10 @@ def run_check(prop, tier, seed):
         "inconclusive_reasons": reasons,
         "repo": os.environ.get("VERIF_REPO", "/repo"),
     }
-    os.makedirs(os.path.join(VERIF, "evidence"), exist_ok=True)
-    evpath = os.path.join(VERIF, "evidence", f"{prop}.json")
+    # selftest runs against scratch copies point this elsewhere so the real tree's evidence survives
+    evdir = os.environ.get("VERIF_EVIDENCE_DIR") or os.path.join(VERIF, "evidence")
+    os.makedirs(evdir, exist_ok=True)
+    evpath = os.path.join(evdir, f"{prop}.json")
     try:
         validate_evidence(ev)
     except Exception as e:  # noqa
